@@ -399,3 +399,11 @@ Definition kind_of_record (r : record) : kind :=
   | RFruLoc _ _ => KFruLoc | RMcLoc _ _ => KMcLoc | RMcConf _ _ => KMcConf
   | ROem _ _ => KOem | RUnknown _ => KUnknown
   end.
+
+(* ---- arbitrary data: the common header of whatever record comes back ---- *)
+Definition record_hdr (r : record) : hdr :=
+  match r with
+  | RFull h _ | RCompact h _ | REventOnly h _ | RFruLoc h _ | RMcLoc h _ | RMcConf h _
+  | ROem h _ | RUnknown h => h
+  end.
+
